@@ -218,6 +218,10 @@ impl Core {
                 | MessageType::Response(ResponseSpecific::FindNode(_))
                 | MessageType::Request(_) => {}
             };
+        } else if let MessageType::Response(ResponseSpecific::Ping(_)) = &message.message_type {
+            // An (expected) response to one of our routing table maintenance pings,
+            // refresh that node, otherwise pinging it would be pointless.
+            should_add_node = true;
         };
 
         if should_add_node {
